@@ -35,10 +35,14 @@ def load_known():
     return k.get('findings', [])
 
 
+CURRENT = [None]     # the report of the running check (bin/check finishes it when a suite ends early)
+
+
 class Report:
     """Accumulates what a check did; prints VIOLATION / KNOWN-FINDING lines; writes evidence."""
 
     def __init__(self, prop, tier, level='model_checking'):
+        CURRENT[0] = self
         self.prop = prop
         self.tier = tier
         self.level = level
